@@ -66,13 +66,18 @@ def struct_invariants(env):
                                     def same(x, y):
                                         return x[0] == "field" and y[0] == "field" and x[1] == y[1] and x[2] == y[2]
                                     v = unref(val)
-                                    if same(v, gt):
+                                    lt_ok = any(fc[0] == "lt" and same(unref(fc[1]), ft) and same(unref(fc[2]), gt)
+                                                for fc in block_facts(env.ev, ctx, bi) if len(fc) == 3)
+
+                                    def accepted(v):
+                                        v = unref(v)
+                                        if same(v, gt):
+                                            return True
+                                        return v[0] == "bin" and v[1] == "Add" and v[3] == ("int", 1) \
+                                            and same(unref(v[2]), ft) and lt_ok
+                                    # (a value chosen in a `match` is one of its alternatives)
+                                    if all(accepted(x) for x in (v[1] if v[0] == "phi" else (v,))):
                                         continue
-                                    if v[0] == "bin" and v[1] == "Add" and v[3] == ("int", 1) and same(unref(v[2]), ft):
-                                        lt_ok = any(fc[0] == "lt" and same(unref(fc[1]), ft) and same(unref(fc[2]), gt)
-                                                    for fc in block_facts(env.ev, ctx, bi) if len(fc) == 3)
-                                        if lt_ok:
-                                            continue
                                     ok = False
                 if ok and nsites > 0:
                     inv.add((adt, f, g))
@@ -170,6 +175,52 @@ def tainted_deep(env, t, top_body):
     return None
 
 
+def _counts_slice_rounds(e):
+    """`k + 1` where k is a local that starts at a constant 0, is assigned nowhere else inside the loop but from this very
+    addition, and the addition is dominated by the `Some` edge of a `next()` of a std slice iterator (`Iter` / `IterMut`,
+    a `for x in slice.iter()/iter_mut()` loop) called in the same loop: k counts yielded elements of a slice."""
+    b, bi, st = e.body, e.bb, e.info["stmt"]
+    if not (st["rv"]["b"].get("k") == "const" and st["rv"]["b"].get("int") == 1 and st["rv"]["a"]["k"] in ("copy", "move")
+            and not st["rv"]["a"]["place"]["p"]):
+        return False
+    cnt, tmp = st["rv"]["a"]["place"]["l"], st["place"]["l"]
+    loops = [(h, lb) for (h, lb) in b.natural_loops() if bi in lb]
+    if not loops:
+        return False
+    h, lb = min(loops, key=lambda x: len(x[1]))
+    ndefs = 0
+    for x in range(len(b.blocks)):
+        for s2 in b.blocks[x]["stmts"]:
+            if s2["k"] == "assign" and s2["place"]["l"] == cnt and not s2["place"]["p"]:
+                rv = s2["rv"]
+                if x in lb:
+                    if not (rv["k"] == "use" and rv["op"].get("place", {}).get("l") == tmp):
+                        return False
+                else:
+                    ndefs += 1
+                    if not (rv["k"] == "use" and rv["op"].get("k") == "const" and rv["op"].get("int") == 0):
+                        return False
+    if ndefs != 1:
+        return False
+    dom = b.dominators().get(bi, set()) | {bi}
+    for x in lb:
+        c = b.callee(x)
+        if c is None or c.indirect or c.trait != "std::iter::Iterator" or c.name != "next":
+            continue
+        if (c.self_ty or {}).get("adt") not in ("std::slice::IterMut", "std::slice::Iter"):
+            continue
+        # the Some edge of this call dominates the addition
+        tgt = b.term(x).get("target")
+        if tgt is None or tgt not in dom:
+            continue
+        t2 = b.term(tgt)
+        if t2["k"] == "switch":
+            some_t = [tb for v, tb in t2["targets"] if v == 1]
+            if some_t and some_t[0] in dom and some_t[0] != t2["otherwise"]:
+                return True
+    return False
+
+
 def no_overflow_add(p, a, b):
     """a + b cannot overflow?"""
     a, b = unref(a), unref(b)
@@ -254,6 +305,10 @@ def rule_ovf(env, shared):
                 why = no_overflow_add(p, a, b)
                 if why:
                     put(Ob("OVF", key, "ok", e.loc(), "no overflow: " + why, True))
+                    return
+                if _counts_slice_rounds(e):
+                    put(Ob("OVF", key, "ok", e.loc(), "no overflow: the counter starts at 0 and grows by one per element that a "
+                           "std slice iterator yields in this loop: it is bounded by the length of the slice", True))
                     return
                 # axiom: begin_idx + i with i the enumerate index of the chunk's elements
                 txt = fmt(a) + fmt(b)
